@@ -40,10 +40,10 @@ KINDS = {
     "68020": ["word", "abs", "jmp", "bra", "bsr", "bsrx", "bcc", "equ", "qimm", "selfw"],
     "6502": ["word", "abs", "jmp", "sbra", "equ"],
     "6809": ["word", "abs", "jmp", "bra", "sbra", "equ"],
-    "6811": ["word", "abs", "jmp", "sbra", "equ"],
+    "6811": ["word", "abs", "jmp", "sbra", "equ", "brsx", "brsy", "brcd"],
     "8086": ["word", "abs", "bra", "equ"],
 }
-MAXSZ = dict(word=4, abs=6, jmp=6, bra=4, bsr=4, bsrx=4, bcc=4, sbra=2, equ=4, qimm=2, selfw=6)
+MAXSZ = dict(word=4, abs=6, jmp=6, bra=4, bsr=4, bsrx=4, bcc=4, sbra=2, equ=4, qimm=2, selfw=6, brsx=4, brsy=5, brcd=4)
 
 
 # (short branch with a label operand, byte data statement, extra prologue) for the "shadow" programs
@@ -244,7 +244,7 @@ def render(case):
             if kind == "qimm":
                 # a constant that is defined behind all code (forward EQU), used as a quick immediate
                 consts.append("qc%d\tequ %d" % (rid, it[4]))
-            if kind == "sbra" and worst_distance(items, i, labpos[k]) > 118:
+            if kind in ("sbra", "brsx", "brsy", "brcd") and worst_distance(items, i, labpos[k]) > 118:
                 kind = "jmp"
             mark = ("\tdc.w 49980,%d" % rid) if tn in ("68000", "68020") else "\t%s 195,60,%d,%d" % (B, rid >> 8, rid & 255)
             fwd = labpos[k] > i
@@ -260,7 +260,8 @@ def render(case):
                 "6502": dict(word="adr lab%d", abs="lda lab%d", jmp="jmp lab%d", sbra="bne lab%d", equ="adr equ%d"),
                 "6809": dict(word="fdb lab%d", abs="lda lab%d", jmp="jmp lab%d", bra="lbra lab%d", sbra="bra lab%d",
                              equ="fdb equ%d"),
-                "6811": dict(word="fdb lab%d", abs="ldaa lab%d", jmp="jmp lab%d", sbra="bra lab%d", equ="fdb equ%d"),
+                "6811": dict(word="fdb lab%d", abs="ldaa lab%d", jmp="jmp lab%d", sbra="bra lab%d", equ="fdb equ%d",
+                             brsx="brset 5,x,#16,lab%d", brsy="brset 5,y,#16,lab%d", brcd="brclr 7,#1,lab%d"),
                 "8086": dict(word="dw lab%d", abs="mov ax,word ptr [lab%d]", bra="jmp lab%d", equ="dw equ%d"),
             }[tn][kind]
             if kind == "selfw":
@@ -376,6 +377,14 @@ def decode(tn, kind, mem, a, dp=0):
             return (a + 3 + s16(be16(1))) & 0xffff, 3
         if kind == "sbra" and b(0) == 0x20:
             return (a + 2 + s8(b(1))) & 0xffff, 2
+        # 68HC11 bit-test branches: direct, X-indexed, Y-indexed (page prefix 18h); the displacement counts from the
+        # end of the instruction
+        if kind == "brcd" and b(0) == 0x13:
+            return (a + 4 + s8(b(3))) & 0xffff, 4
+        if kind == "brsx" and b(0) == 0x1e:
+            return (a + 4 + s8(b(3))) & 0xffff, 4
+        if kind == "brsy" and b(0) == 0x18 and b(1) == 0x1e:
+            return (a + 5 + s8(b(4))) & 0xffff, 5
         raise ValueError("opcode %02x" % b(0))
     if tn == "8086":
         if kind in ("word", "equ"):
@@ -502,7 +511,7 @@ def execute(case):
         except (KeyError, ValueError) as e:
             return engine.bad("reference %d (%s lab%d) not decodable at $%x: %s" % (rid, kind, k, a, e), key, classes,
                               **detail)
-        relative = kind in ("bra", "bsr", "bsrx", "bcc", "sbra")
+        relative = kind in ("bra", "bsr", "bsrx", "bcc", "sbra", "brsx", "brsy", "brcd")
         # PC-relative fields decode (from the load address) to the target's load address; absolute ones hold the
         # symbol value = load address + phase offset
         want = labaddr[k] if relative else (labaddr[k] + D + (1 if kind == "equ" else 0)) & amask
@@ -671,7 +680,10 @@ def _k_dpr_page(case, out):
     if not any(it[0] == "assume" and it[1] != 0 for it in items):
         return False
     labpos = {it[1]: i for i, it in enumerate(items) if it[0] == "lab"}
-    return any(it[0] == "ref" and it[1] in ("abs", "jmp") and labpos.get(it[2], -1) > i for i, it in enumerate(items))
+    # a short branch whose target may be out of reach is written as 'jmp lab' by render()
+    return any(it[0] == "ref" and labpos.get(it[2], -1) > i and
+               (it[1] in ("abs", "jmp") or (it[1] == "sbra" and worst_distance(items, i, labpos[it[2]]) > 118))
+               for i, it in enumerate(items))
 
 
 KNOWN = {
